@@ -1,6 +1,7 @@
 import AlatorVerif.Lemmas.BrokerProps
 import AlatorVerif.Model.Client
 import AlatorVerif.Lemmas.BrokerSrvRefines
+import AlatorVerif.Lemmas.BrokerSrvHist
 /-!
 # C06 — order gatekeeping: valid orders forwarded exactly once; refusals are inert
 
@@ -61,6 +62,14 @@ theorem broker_server_is_a_backtest_of_the_shared_server
      obtain ⟨h1, h2, h3⟩ := Refine.other_backtests_do_not_move_the_view a id j hj adm o k
      exact ⟨h1.trans hs, h2.trans hs, h3.trans hs⟩⟩
 
+/-- **… and nobody else's requests reach it, for however long**: any history of requests by other clients —
+    creations of new backtests (`init`, `new_backtest`) and any request naming another id — leaves the broker's
+    view of its backtest (an existing one, `id ≤ last`) exactly as it was -/
+theorem broker_view_survives_any_foreign_history (a : Refine.UApp σ α) (id : Nat) (ops : List (Refine.UOp σ α))
+    (hid : id ≤ a.last) (hf : ∀ op ∈ ops, Refine.Foreign id op) :
+    Refine.absSrv (SV.run SV.uistOps a ops).2 id = Refine.absSrv a id :=
+  (Refine.view_unmoved_by_foreign_history id ops a hid hf).1
+
 /-- the hypothesis `Rows` is met by every backtest over a dataset built from a `Penelope` store whose clock
     sits on a listed date (non-vacuity of the theorem above) -/
 theorem penelope_datasets_have_rows {Q : Type} (p : PPen.Pen σ α) (syms : List σ) (mk : List (PPen.Entry σ α) → Q) :
@@ -80,5 +89,36 @@ theorem dropped_future_loses_the_order {S O : Type} (push : S → O → S) (s : 
 example : sufficientCash (σ := Nat) (α := Rat) .pinned
     { cash := 100, hold := fun _ => none, pend := fun _ => none, latest := fun _ => none, log := [], costs := [], failed := false }
     ⟨none, .limit, .buy, 0, 1, some 5⟩ 5 = .panic := by decide +kernel
+
+/-! non-vacuity of the refinement: a concrete shared server with two backtests over a two-date dataset; backtest 1 is
+    the broker's. Its view exists, `Rows` holds, and backtest 2's owner may tick as it likes. -/
+section
+open SV
+def exDs : Dataset (UQ Nat Rat) :=
+  { dates := [10, 20], quotes := fun d => if d = 10 ∨ d = 20 then some (fun s => if s = 0 then some ⟨100, 101, d⟩ else none) else none }
+def exBt (d : Int) (p : Nat) : Backtest (Uist Nat Rat) :=
+  { date := d, pos := p, exch := { book := { inner := [], last := 0 }, log := [], buffer := [] }, dataset := "D" }
+def exApp : Refine.UApp Nat Rat :=
+  { backtests := fun i => if i = 1 then some (exBt 10 0) else if i = 2 then some (exBt 20 1) else none,
+    last := 2, datasets := fun n => if n = "D" then some exDs else none }
+
+example : (Refine.absSrv exApp 1).isSome = true ∧ ((Refine.absSrv exApp 1).map (·.date)) = some 10 := by
+  simp [Refine.absSrv, exApp, exBt, exDs]
+
+example : Refine.Rows exApp 1 := by
+  intro bt ds hbt hds
+  have hb : bt = exBt 10 0 := by simpa [exApp] using hbt.symm
+  subst hb
+  have hd : ds = exDs := by simpa [exApp, exBt] using hds.symm
+  subst hd
+  refine ⟨?_, by simp [exDs, exBt]⟩
+  intro d hd
+  have : d = 10 ∨ d = 20 := by simpa [exDs] using hd
+  simp [exDs, this]
+
+example : (1 : Nat) ≤ exApp.last ∧ Refine.Foreign (σ := Nat) (α := Rat) 1 (.tick 2 []) ∧ Refine.Foreign (σ := Nat) (α := Rat) 1 (.init "D") := by
+  refine ⟨by decide, ?_, trivial⟩
+  simp [Refine.Foreign, target]
+end
 
 end C06
